@@ -50,9 +50,9 @@ func (d notFoundDB) Load(k []byte) ([]byte, error) {
 	return v, err
 }
 
-func newPrune(seed int64, trie int) (*pruneState, string) {
+func newPrune(seed int64, trie int, dir string) (*pruneState, string) {
 	p := &pruneState{ctl: &appsim.CrashCtl{}, txOf: map[uint64]common.Hash{}, setHash: map[uint64][]byte{}}
-	p.ce.Wrap = func(name string, db dbm.DB) dbm.DB { return appsim.WrapCrash(name, db, "", p.ctl) }
+	p.ce.Wrap = func(name string, db dbm.DB) dbm.DB { return appsim.WrapCrash(name, db, dir, p.ctl) }
 	if a := p.ce.Exec(fmt.Sprintf("chain trie=%d accts=2 wallets=1 seed=%d", trie, seed)); a != "ok" {
 		return nil, a
 	}
@@ -219,7 +219,7 @@ func (p *pruneState) loadParams(h uint64) (ans string) {
 func (e *exec) pruneOp(toks []string) string {
 	switch toks[0] {
 	case "pchain":
-		p, a := newPrune(hx.ArgI(toks, "seed", 1), int(hx.ArgI(toks, "trie", 1)))
+		p, a := newPrune(hx.ArgI(toks, "seed", 1), int(hx.ArgI(toks, "trie", 1)), e.dir)
 		e.pr = p
 		return a
 	case "grow":
